@@ -185,9 +185,12 @@ free_table(void)
  * left behind in the structures (entry -> area link and offset, touched marks, the run of entries recorded in each
  * area, the table's flags, the storage content of areas whose size stays) is still there, as it is when an
  * application changes its table and calls register_init() a second time */
+static bool init_attempted;
+
 static bool
 parse_table(const char *be, char *as, char *es, bool keep)
 {
+    if (!keep) init_attempted = false;
     static RegisterArea old_areas[MAXA + 1];
     static RegisterEntry old_entries[MAXE + 1];
     RegisterAtom *old_store[MAXA];
@@ -355,6 +358,7 @@ harness_op(int argc, char **argv)
     } else if (strcmp(op, "rt.edit") == 0 && argc == 4) {
         printf(parse_table(argv[1], argv[2], argv[3], true) ? "ok" : "bad-op");
     } else if (strcmp(op, "rt.init") == 0) {
+        init_attempted = true;
         RegisterInit r = register_init(&table);
         bool init = (table.flags & REG_TF_INITIALISED) != 0;
         printf("%s", init_name(r.code));
@@ -401,6 +405,9 @@ harness_op(int argc, char **argv)
         print_state();
         free(buf);
     } else if (strcmp(op, "rt.hole") == 0 && argc == 3) {
+        /* the hole query does not look at the initialised flag but at what register_init() counted: before the first
+         * register_init() of a description there is nothing it could answer from */
+        if (!init_attempted) { printf("bad-op"); return; }
         print_access(register_block_touches_hole(&table, (RegisterAddress)parse_u64(argv[1]), (RegisterOffset)parse_u64(argv[2])));
     } else if (strcmp(op, "rt.sanitise") == 0) {
         print_access(register_sanitise(&table));
